@@ -130,40 +130,47 @@ fn read_one_shape_as<T: Read, S: ReadableShape>(
     Ok((hdr, shape))
 }
 
+/// Position that no record can have: makes the iterator seek before its next read.
+const UNKNOWN_POSITION: usize = usize::MAX;
+
 /// Struct that handle iteration over the shapes of a .shp file
 pub struct ShapeIterator<'a, T: Read, S: ReadableShape> {
     _shape: std::marker::PhantomData<S>,
     // From where we read the shapes
     source: &'a mut T,
-    // Current position in bytes in the source.
-    current_pos: usize,
+    // Current position in bytes in the source. It belongs to the reader,
+    // so that the next iteration continues where this one stops.
+    current_pos: &'a mut usize,
     // How many bytes the header said there are in
     // the file.
     file_length: usize,
-    // Iterator over the shape indices, used to seek
-    // to the start of a shape when reading
-    shapes_indices: Option<std::slice::Iter<'a, ShapeIndex>>,
+    // The shape indices, used to seek to the start of a shape when reading,
+    // and the position (kept in the reader) of the next one to use
+    shapes_indices: Option<(&'a [ShapeIndex], &'a mut usize)>,
 }
 
 impl<T: Read + Seek, S: ReadableShape> Iterator for ShapeIterator<'_, T, S> {
     type Item = Result<S, crate::Error>;
 
     fn next(&mut self) -> Option<Self::Item> {
-        if let Some(ref mut shapes_indices) = self.shapes_indices {
+        if let Some((shapes_indices, next_index)) = &mut self.shapes_indices {
             // When we have the `shx` file, it alone tells where the records are and how many
             // there are: some shapes may not be stored sequentially and there may be 'garbage'
             // bytes between them, so the position reached in the file means nothing.
-            let start_pos = match shape_offset_in_bytes(shapes_indices.next()?) {
+            let shape_index = shapes_indices.get(**next_index)?;
+            **next_index += 1;
+            let start_pos = match shape_offset_in_bytes(shape_index) {
                 Ok(pos) => pos,
                 Err(err) => return Some(Err(err.into())),
             };
-            if start_pos != self.current_pos as u64 {
+            if start_pos != *self.current_pos as u64 {
                 if let Err(err) = self.source.seek(SeekFrom::Start(start_pos)) {
+                    *self.current_pos = UNKNOWN_POSITION;
                     return Some(Err(err.into()));
                 }
-                self.current_pos = start_pos as usize;
+                *self.current_pos = start_pos as usize;
             }
-        } else if self.current_pos >= self.file_length {
+        } else if *self.current_pos >= self.file_length {
             return None;
         }
         let (hdr, shape) = match read_one_shape_as::<T, S>(self.source) {
@@ -171,8 +178,8 @@ impl<T: Read + Seek, S: ReadableShape> Iterator for ShapeIterator<'_, T, S> {
                 // The source is now somewhere inside the record. With an index the next
                 // entry says where to go (an impossible position forces the seek); without
                 // one there is no way to find the next record: the iteration ends.
-                self.current_pos = if self.shapes_indices.is_some() {
-                    usize::MAX
+                *self.current_pos = if self.shapes_indices.is_some() {
+                    UNKNOWN_POSITION
                 } else {
                     self.file_length
                 };
@@ -180,15 +187,18 @@ impl<T: Read + Seek, S: ReadableShape> Iterator for ShapeIterator<'_, T, S> {
             }
             Ok(hdr_and_shape) => hdr_and_shape,
         };
-        self.current_pos += record::RecordHeader::SIZE;
-        self.current_pos += hdr.record_size as usize * 2;
+        *self.current_pos += record::RecordHeader::SIZE;
+        *self.current_pos += hdr.record_size as usize * 2;
         Some(Ok(shape))
     }
 
     fn size_hint(&self) -> (usize, Option<usize>) {
         self.shapes_indices
             .as_ref()
-            .map(|s| s.size_hint())
+            .map(|(shapes_indices, next_index)| {
+                let remaining = shapes_indices.len().saturating_sub(**next_index);
+                (remaining, Some(remaining))
+            })
             .unwrap_or((0, None))
     }
 }
@@ -230,6 +240,10 @@ pub struct ShapeReader<T> {
     source: T,
     header: header::Header,
     shapes_index: Option<Vec<ShapeIndex>>,
+    // Position in bytes of the source, as left by the last operation
+    current_pos: usize,
+    // Position in the index of the next shape an iteration returns
+    next_index: usize,
 }
 
 impl<T: Read> ShapeReader<T> {
@@ -262,6 +276,8 @@ impl<T: Read> ShapeReader<T> {
             source,
             header,
             shapes_index: None,
+            current_pos: header::HEADER_SIZE as usize,
+            next_index: 0,
         })
     }
 
@@ -292,6 +308,8 @@ impl<T: Read> ShapeReader<T> {
             source,
             header,
             shapes_index,
+            current_pos: header::HEADER_SIZE as usize,
+            next_index: 0,
         })
     }
 
@@ -386,9 +404,12 @@ impl<T: Read + Seek> ShapeReader<T> {
         ShapeIterator {
             _shape: std::marker::PhantomData,
             source: &mut self.source,
-            current_pos: header::HEADER_SIZE as usize,
+            current_pos: &mut self.current_pos,
             file_length: usize::try_from(self.header.file_length).unwrap_or(0) * 2,
-            shapes_indices: self.shapes_index.as_ref().map(|s| s.iter()),
+            shapes_indices: match self.shapes_index {
+                Some(ref shapes_index) => Some((shapes_index.as_slice(), &mut self.next_index)),
+                None => None,
+            },
         }
     }
 
@@ -454,6 +475,10 @@ impl<T: Read + Seek> ShapeReader<T> {
                 return Some(Err(e));
             }
 
+            // Whatever happens next, the following iteration starts from the first shape
+            self.next_index = 0;
+            self.current_pos = UNKNOWN_POSITION;
+
             let (_, shape) = match read_one_shape_as::<T, S>(&mut self.source) {
                 Err(e) => return Some(Err(e)),
                 Ok(hdr_and_shape) => hdr_and_shape,
@@ -465,6 +490,7 @@ impl<T: Read + Seek> ShapeReader<T> {
             {
                 return Some(Err(Error::IoError(e)));
             }
+            self.current_pos = header::HEADER_SIZE as usize;
             Some(Ok(shape))
         } else {
             Some(Err(Error::MissingIndexFile))
@@ -485,13 +511,16 @@ impl<T: Read + Seek> ShapeReader<T> {
     /// was not constructed with [ShapeReader::with_shx]
     pub fn seek(&mut self, index: usize) -> Result<(), Error> {
         if let Some(ref shapes_index) = self.shapes_index {
-            match shapes_index.get(index) {
+            let position = match shapes_index.get(index) {
                 Some(shape_idx) => {
                     let offset = shape_offset_in_bytes(shape_idx)?;
                     self.source.seek(SeekFrom::Start(offset))
                 }
                 None => self.source.seek(SeekFrom::End(0)),
             }?;
+            // The next iteration starts from this shape
+            self.current_pos = position as usize;
+            self.next_index = index.min(shapes_index.len());
             Ok(())
         } else {
             Err(Error::MissingIndexFile)
